@@ -54,7 +54,24 @@ func try[T any](f func(T, T) bool, a, b T) (res bool, p any) {
 // checkType runs all pairs of vs through eq / ne (frt.OpEqual / OpNotEqual or the
 // emitted Folang functions) and checks totality, agreement with canonical-form
 // equality, reflexivity, symmetry, negation and transitivity.
+// -only K: this process compares family number K only (so that it is the FIRST comparison the
+// process ever makes: state kept between comparisons cannot help), in reverse value order.
+var onlyFam, famIdx = -1, -1
+
 func checkType[T any](tname string, vs []val[T], eq, ne func(T, T) bool, triples int) {
+	famIdx++
+	if onlyFam >= 0 {
+		if famIdx != onlyFam {
+			return
+		}
+		tname += " (first comparison of the process)"
+		rv := make([]val[T], len(vs))
+		for i := range vs {
+			rv[len(vs)-1-i] = vs[i]
+		}
+		vs = rv
+		triples = 0
+	}
 	n := len(vs)
 	got := make([][]int8, n) // 1 true, 0 false, -1 panic
 	for i := range got {
@@ -438,6 +455,9 @@ func Run() {
 		if a == "-depth" && i+1 < len(os.Args) {
 			depth, _ = strconv.Atoi(os.Args[i+1])
 		}
+		if a == "-only" && i+1 < len(os.Args) {
+			onlyFam, _ = strconv.Atoi(os.Args[i+1])
+		}
 	}
 	tri := 20000
 	if depth > 2 {
@@ -476,6 +496,13 @@ func Run() {
 	checkType("Folang = on W (emitted)", ws(depth), EqW, nil, 0)
 	checkType("Folang = on int*U (emitted)", tupUs(depth), EqTupU, nil, 0)
 	checkType("Folang = / <> on Tr (emitted)", trees(depth), EqTr, NeTr, 0)
+	if onlyFam >= 0 {
+		emit(map[string]any{"t": "stat", "k": fmt.Sprintf("isolated_family_%02d", onlyFam), "v": perType})
+		emit(map[string]any{"t": "done", "evals": evals, "distinct": distinct})
+		out.Flush()
+		return
+	}
+	emit(map[string]any{"t": "stat", "k": "families", "v": famIdx + 1})
 	emit(map[string]any{"t": "stat", "k": "pairs_per_type", "v": perType})
 	emit(map[string]any{"t": "stat", "k": "types", "v": len(perType)})
 	emit(map[string]any{"t": "stat", "k": "panics_per_type", "v": panics})
